@@ -11,7 +11,9 @@ from . import pe
 VIEW = 'norm'
 # 'reported variable values': a fixed variable is read back through SampleSet::get / Solution state, where
 # the recorded substituted value has to win over a sampled one (seed C03-9); decided by C06's rule family
-RELIES_ON = {'C06': ['C06.get']}
+RELIES_ON = {'C06': ['C06.get'],
+             # evaluate(rest) after partial_evaluate(fixed) goes through check_bound again: it must refuse nothing that evaluate(all) accepts (seed C03-20)
+             'C05': ['C05.bound/check_bound']}
 
 INST = 'v1::Instance'; DV = 'v1::DecisionVariable'
 
